@@ -7,7 +7,7 @@ import re
 import sympy as sp
 
 from ptstat import AnalysisError, algebra
-from ptstat.symval import SymObj, Phi, SymRaise, Builtin
+from ptstat.symval import SymObj, Phi, SymRaise, Builtin, TextFile
 from ptstat.world import World
 from spec import activation as spec
 from .common import eq, fsite, raises, folder, _s
@@ -268,7 +268,7 @@ def _r5(ctx):
     w = World(ctx.src, loaders=())
     I = w.I
     iso = w.isotope("Fe", 56)
-    I.builtins["open"] = Builtin("open", lambda *a, **k: ["\t\t\n", "xx\tskipped\n", probe])
+    I.builtins["open"] = Builtin("open", lambda *a, **k: TextFile(["\t\t\n", "xx\tskipped\n", probe], "activation.dat"))
     I.stubs["core.get_data_path"] = lambda I_, a, k: "/data"
     try:
         I.call(I.global_name("activation", "init"), [w.table], {})
